@@ -1,7 +1,10 @@
 package main
 
 import (
+	"crypto/sha256"
+	"encoding/binary"
 	"fmt"
+	"io"
 	"math/big"
 	"sort"
 	"strconv"
@@ -64,17 +67,20 @@ type state struct {
 
 func hsKey(d polyenv.Dump, mask uint64) string {
 	pre := hsenv.HSContractPrefix()
-	var b strings.Builder
+	h := sha256.New()
+	var l [8]byte
 	for _, kv := range d {
 		if strings.HasPrefix(kv.K, pre) {
-			b.WriteString(kv.K)
-			b.WriteByte(0)
-			b.WriteString(kv.V)
-			b.WriteByte(1)
+			binary.LittleEndian.PutUint32(l[:4], uint32(len(kv.K)))
+			binary.LittleEndian.PutUint32(l[4:], uint32(len(kv.V)))
+			h.Write(l[:])
+			io.WriteString(h, kv.K)
+			io.WriteString(h, kv.V)
 		}
 	}
-	b.WriteString(strconv.FormatUint(mask, 16))
-	return b.String()
+	binary.LittleEndian.PutUint64(l[:], mask)
+	h.Write(l[:])
+	return string(h.Sum(nil))
 }
 
 // checkInv evaluates the property's invariants on a view. rootHash is the trust root.
@@ -154,17 +160,59 @@ type treeStats struct {
 	truncated            bool
 }
 
-// events: singles for every node, pairs per mode, invalid headers.
-func eventMenu(in *instance, allPairs bool) []string {
+// pair modes of the event menu
+const (
+	pairsAll      = iota // every ordered pair of nodes (and (i,i))
+	pairsRelated         // (i,i), (parent,child), (child,parent), (grandparent,grandchild)
+	frontierOnly         // fork-pair family: per state only the frontier of each fork (next, next+1, last stored) and their pairs
+)
+
+// eventMenu: single-header submissions, batches of two, invalid headers.
+func eventMenu(in *instance, mode int, mask uint64) []string {
 	n := in.sh.n()
 	var evs []string
-	for i := 1; i <= n; i++ {
-		evs = append(evs, "s"+itoa(i))
-	}
-	for i := 1; i <= n; i++ {
-		for j := 1; j <= n; j++ {
-			if allPairs || i == j || in.sh.par[j] == i || in.sh.par[i] == j {
-				evs = append(evs, "p"+itoa(i)+","+itoa(j))
+	if mode == frontierOnly {
+		kids := func(i int) (out []int) {
+			for j := 1; j <= n; j++ {
+				if in.sh.par[j] == i {
+					out = append(out, j)
+				}
+			}
+			return
+		}
+		for i := 1; i <= n; i++ {
+			st := mask&(1<<uint(i)) != 0
+			pst := mask&(1<<uint(in.sh.par[i])) != 0
+			if !st && pst { // next acceptable header of a fork
+				evs = append(evs, "s"+itoa(i))
+				for _, k := range kids(i) {
+					evs = append(evs, "s"+itoa(k), "p"+itoa(i)+","+itoa(k), "p"+itoa(k)+","+itoa(i)) // orphan, batch in order, batch reversed
+					for _, g := range kids(k) {
+						evs = append(evs, "p"+itoa(i)+","+itoa(g)) // first acceptable, second orphan: whole batch must fail
+					}
+				}
+			}
+			if st {
+				tip := true
+				for _, k := range kids(i) {
+					if mask&(1<<uint(k)) != 0 {
+						tip = false
+					}
+				}
+				if tip { // re-submission of a fork tip, alone and in front of its successor
+					evs = append(evs, "s"+itoa(i), "p"+itoa(i)+","+itoa(i))
+				}
+			}
+		}
+	} else {
+		for i := 1; i <= n; i++ {
+			evs = append(evs, "s"+itoa(i))
+		}
+		for i := 1; i <= n; i++ {
+			for j := 1; j <= n; j++ {
+				if mode == pairsAll || i == j || in.sh.par[j] == i || in.sh.par[i] == j || (in.sh.par[j] > 0 && in.sh.par[in.sh.par[j]] == i) {
+					evs = append(evs, "p"+itoa(i)+","+itoa(j))
+				}
 			}
 		}
 	}
@@ -188,7 +236,7 @@ func parseEv(e string) (kind byte, a, b int) {
 }
 
 // explore runs the BFS over all submission sequences of one instance.
-func explore(r *ev.Run, e *hsenv.Env, ad adapter, sim *hsenv.Sim, base polyenv.Dump, in *instance, allPairs bool, fam string) treeStats {
+func explore(r *ev.Run, e *hsenv.Env, ad adapter, sim *hsenv.Sim, base polyenv.Dump, in *instance, mode int, fam string) treeStats {
 	tag := ad.name()
 	chain := ad.chainID()
 	rootH := ad.rootHeight()
@@ -208,11 +256,10 @@ func explore(r *ev.Run, e *hsenv.Env, ad adapter, sim *hsenv.Sim, base polyenv.D
 		}
 	}
 	report(init, nil)
-	menu := eventMenu(in, allPairs)
 	n := in.sh.n()
 	cfg := mc.Config[state]{
 		Init:   []state{init},
-		Events: func(s state, depth int) []string { return menu },
+		Events: func(s state, depth int) []string { return eventMenu(in, mode, s.mask) },
 		Key:    func(s state) string { return s.hskey },
 		Stop:   r.Expired,
 		Step: func(s state, evn string) (state, bool) {
@@ -273,7 +320,7 @@ func explore(r *ev.Run, e *hsenv.Env, ad adapter, sim *hsenv.Sim, base polyenv.D
 			}
 			unchangedExpected := !expOK || dupOnly || kind == 'x'
 			if unchangedExpected {
-				if hsKey(nx.dump, s.mask) != hsKey(s.dump, s.mask) {
+				if nx.hskey != s.hskey || mask != s.mask {
 					k := "reject-changed-state"
 					if dupOnly {
 						k = "resubmit-changed-state"
